@@ -314,7 +314,7 @@ def verify_resolved_optional(pid):
                 if p and w is None:
                     none = [k for k in names if kw[k] is None]
                     w = {"confirmed": True, "input": f"{cls.__name__}(**FULL with {none} set to None).{what}", "why": p[:500], "source": RESOLVED_SRC}
-    return [dict(id=oid, status="refuted" if w else "proved", unit=unit, detail=(w or {}).get("why", ""), witness=w, bounded=True)]
+    return [dict(id=oid, status="refuted" if w else "proved", unit=unit, detail=(w or {}).get("why", ""), witness=w, bounded=True, backend="native (bounded)")]
 
 
 def all_obligations(pid, path=HELPERS):
@@ -329,11 +329,11 @@ def all_obligations(pid, path=HELPERS):
         obs += [verify_is_optional(pid, n, fo) for n in ARITIES]
         n2, w2 = native_witness_opt()
         obs.append(dict(id=f"{pid}.S19[is_optional]/native{{bounded}}", status="refuted" if w2 else "proved", unit=UNIT_OPT + f" (bounded: {n2} concrete calls)",
-                        detail=(w2 or {}).get("why", ""), witness=w2, bounded=True))
+                        detail=(w2 or {}).get("why", ""), witness=w2, bounded=True, backend="native (bounded)"))
         obs += verify_resolved_optional(pid)
     n, w = native_witness()
     obs.append(dict(id=f"{pid}.S18[not_none_type_arg]/native{{bounded}}", status="refuted" if w else "proved", unit=UNIT + f" (bounded: {n} concrete calls)",
-                    detail=(w or {}).get("why", ""), witness=w, bounded=True))
+                    detail=(w or {}).get("why", ""), witness=w, bounded=True, backend="native (bounded)"))
     return obs
 
 
